@@ -20,6 +20,17 @@ def Tab.get {α : Type} [Inhabited α] (t : Tab α) (i j : Nat) : α := t.a[i * 
 
 instance : Inhabited (Cx Float) := ⟨⟨0, 0⟩⟩
 
+/-- memoised `dft2At` / `idft2ReAt` on the whole cell: the roots of unity are tabulated once -/
+def fwdTab (M N : Nat) (im : Nat → Nat → Float) : Tab (Cx Float) :=
+  let wM := Tab.make 1 M (fun _ a => (root M (-1) (a : Int) : Cx Float))
+  let wN := Tab.make 1 N (fun _ a => (root N (-1) (a : Int) : Cx Float))
+  Tab.make M N (dft2AtW M N (wM.get 0) (wN.get 0) im)
+
+def invReTab (M N : Nat) (G : Nat → Nat → Cx Float) : Tab Float :=
+  let wM := Tab.make 1 M (fun _ a => (root M 1 (a : Int) : Cx Float))
+  let wN := Tab.make 1 N (fun _ a => (root N 1 (a : Int) : Cx Float))
+  Tab.make M N (idft2ReAtW M N (wM.get 0) (wN.get 0) G)
+
 /-! ### codecs -/
 def ratToJson (q : Rat) : Json := Json.str s!"{q.num}/{q.den}"
 
@@ -149,9 +160,9 @@ def opFull (j : Json) : Except String Json := do
   let scale := maxAbs (M * N) fun p => c (p / N) (p % N)
   let gap := fgap (M * N) fun p => c (p / N) (p % N)
   let needF := (variant == "np" && up > 1) || (variant != "np" && up > 2) || wantImg
-  let Fr_t := if needF then Tab.make M N (dft2At M N ref) else Tab.make M N fun _ _ => (⟨0, 0⟩ : Cx Float)
+  let Fr_t := if needF then fwdTab M N ref else Tab.make M N fun _ _ => (⟨0, 0⟩ : Cx Float)
   let Fr := Fr_t.get
-  let Fi_t := if needF then Tab.make M N (dft2At M N im) else Tab.make M N fun _ _ => (⟨0, 0⟩ : Cx Float)
+  let Fi_t := if needF then fwdTab M N im else Tab.make M N fun _ _ => (⟨0, 0⟩ : Cx Float)
   let Fi := Fi_t.get
   let F_t := Tab.make M N ((ccF Fr Fi))
   let F := F_t.get
@@ -203,7 +214,8 @@ def opFull (j : Json) : Except String Json := do
   if wantImg then
     let G_t := Tab.make M N ((rampAt M N Fi shift.1 shift.2))
     let G := G_t.get
-    out := out ++ [("img", matToJson fl M N (idft2ReAt M N G)),
+    let img_t := invReTab M N G
+    out := out ++ [("img", matToJson fl M N img_t.get),
                    ("fimg", matToJson (fun (z : Cx Float) => Json.arr #[fl z.re, fl z.im]) M N G)]
   pure (Json.mkObj out)
 
